@@ -66,6 +66,22 @@ theorem broadcast_no_response (cfg : Cfg) (ctx : Units) (r : Req) (uid : Nat) (h
   rw [if_pos hb']
   exact ⟨rfl, rfl⟩
 
+/-- a broadcast frame is not filtered out before it reaches the callback: with broadcast enabled the receive path
+    accepts unit 0 whether or not it is hosted -/
+theorem broadcast_unit_accepted (cfg : Cfg) (ctx : Units) (hb : bcast cfg 0 = true) :
+    0 ∈ acceptedUnits cfg ctx := by
+  unfold bcast at hb
+  unfold acceptedUnits
+  have h1 : cfg.broadcast = true := by
+    cases h : cfg.broadcast <;> simp [h] at hb ⊢
+  have h2 : addsBroadcastUnit cfg.frontend = true := by
+    cases h : cfg.frontend <;> simp [h, h1, hasBroadcast] at hb <;> rfl
+  by_cases hc : (hosted ctx).contains 0 = true
+  · simp only [h1, h2, hc, Bool.not_true, Bool.and_false, Bool.false_eq_true, if_false]
+    simpa using hc
+  · simp only [h1, h2, Bool.and_self, Bool.true_and, Bool.not_eq_true] at hc ⊢
+    split <;> simp_all
+
 /-- with broadcast disabled unit 0 is an ordinary address -/
 theorem unit0_ordinary_without_broadcast (cfg : Cfg) (hb : cfg.broadcast = false) : bcast cfg 0 = false := by
   simp [bcast, hb]
